@@ -46,7 +46,7 @@ LANGS = ["py", "ts", "js", "rs"]
 
 
 def items(tier: str, seed: int):
-    out = []
+    out = [{"kind": "nested-fn", "lang": lang} for lang in ("py", "ts", "js")]
     neutral = R.NEUTRAL
     if tier == "quick":
         plan = [(n, neutral) for n in (0, 1, 2, 3)] + [(4, ["IF", "FOR", "TRY_B", "IFELSE_E"])]
@@ -400,9 +400,79 @@ def _run_carrier(acc: Acc, fs, sub: bool):
             remove(root)
 
 
+NESTED_FN = {
+    # ways of putting a function inside a function body; {B} = the nested function's body
+    "ts": {
+        "nested-declaration": ["function inner() {", "{B}", "}", "inner();"],
+        "callback-argument": ["xs.forEach((x) => {", "{B}", "});"],
+        "const-arrow": ["const g = () => {", "{B}", "};", "g();"],
+        "returned-function": ["return function () {", "{B}", "};"],
+        "method-chain-callback": ["return xs.filter((x) => x).map((x) => {", "{B}", "});"],
+    },
+    "py": {
+        "nested-def": ["def inner():", "{B}", "inner()"],
+        "nested-async-def": ["async def inner():", "{B}", "return inner"],
+    },
+}
+NESTED_FN["js"] = NESTED_FN["ts"]
+
+
+def _nested_functions(acc: Acc, lang: str):
+    """Nested functions are outside the depth MODEL (the documentation does not say whether a
+    nested function is a level), but whatever the tool does it must do uniformly: with k control
+    structures inside the nested function, the enclosing function's reported depth grows by the
+    same step s in {0, 1} per structure for EVERY way of nesting a function, and by the same
+    base.  (step 1 = contents count towards the enclosing function, step 0 = they never do.)"""
+    ext = R.EXT[lang]
+    opener, closer = (("def outer(a, xs):", []) if lang == "py" else ("function outer(a, xs) {", ["}"]))
+    unit = "    "
+    profile = {}
+    for wname, tpl in NESTED_FN[lang].items():
+        depths = []
+        for k in (0, 1, 2, 3):
+            body = R.render_forest(tuple(_chain(k)), lang, 2)
+            lines = [opener]
+            for ln in tpl:
+                if ln == "{B}":
+                    lines += body
+                else:
+                    lines.append(unit + ln)
+            lines += closer
+            text = "\n".join(lines) + "\n"
+            root = project({f"mod{ext}": text})
+            rep, _sw = _observe_api(root, root / f"mod{ext}", 1)
+            remove(root)
+            got = rep[1].get("outer", [])
+            depths.append(got[0][0] if got else 1)  # not reported at limit 1: depth 1
+            acc.case()
+            acc.valid()
+            acc.nt((lang, "nested-fn", wname, k))
+        profile[wname] = depths
+        steps = {b - a for a, b in zip(depths, depths[1:]) if a is not None and b is not None}
+        acc.edge(3)
+        if len(steps) != 1 or not steps <= {0, 1}:
+            acc.fail({"check": "nested-function-step", "lang": lang, "wrapper": wname}, {"lang": lang, "nested_fn": wname, "depths_for_k_0_to_3": depths}, "the same step (0 or 1) per control structure inside the nested function", depths)
+    ref = next(iter(profile.values()))
+    for wname, depths in profile.items():
+        acc.edge()
+        if depths != ref:
+            acc.fail({"check": "nested-function-uniformity", "lang": lang, "wrapper": wname}, {"lang": lang, "nested_fn": wname, "profile": profile}, {list(profile)[0]: ref}, {wname: depths}, "two ways of nesting a function inside a function body are counted differently")
+    acc.sample({"lang": lang, "nested_function_profile": profile})
+
+
+def _chain(k):
+    f = ()
+    for _ in range(k):
+        f = (("IF", f),)
+    return f
+
+
 def run_item(item) -> Acc:
     acc = Acc()
     k = item["kind"]
+    if k == "nested-fn":
+        _nested_functions(acc, item["lang"])
+        return acc
     if k == "neutral":
         _run_block(acc, item["forests"], LANGS, item["rot"], k)
     elif k == "extras":
@@ -436,6 +506,12 @@ def _tup(f):
 
 
 def replay_case(case) -> list[dict]:
+    if case.get("nested_fn"):
+        acc = Acc()
+        _nested_functions(acc, case["lang"])
+        for f in acc.failures:
+            print(f["signature"], f["observed"])
+        return [f for f in acc.failures if f["case"].get("nested_fn") == case["nested_fn"]]
     acc = Acc()
     if "argv" in case:
         root = project({f"m{R.EXT[case['lang']]}": case["text"], "cfg.yaml": f"nesting:\n  max_nesting_depth: {case['limit']}\n"})
